@@ -587,3 +587,29 @@ def rule_c11_best_states(prog: Program, col: Collector) -> None:
     rv = list(gft.of_kind("return"))
     col.check(len(rv) == 1 and rv[0].value == ("call", ("attr", SELF, "divergence"), (Rm,), ()), gv.where(), gv.short,
               "returns divergence(self._incomplete)", construct="meta-return", necessity="the value of a meta-coalition is the gap of the game with exactly that knowledge")
+
+
+def rule_p6_sampled_search(prog: Program, col: Collector) -> None:
+    """The sampled exhaustive search works from the STARTING knowledge of the game it is given, re-set for every sampled game."""
+    col.rule("P6", "sample_exploitabilities_of_action_sequences: the starting knowledge is list(get_known_coalitions(game)), captured once before any reset, "
+                   "and every sampled game re-sets exactly that knowledge with its own values", 3)
+    ref = prog.func("gameplay.sample_exploitabilities_of_action_sequences")
+    ft = fterms(prog, ref)
+    pp = ref.positional_params()
+    G, GEN = ("param", pp[0]), ("param", pp[1])
+    want = ("call", ("global", "list"), (("call", ("global", P + "coalitions.get_known_coalitions"), (G,), ()),), ())
+    resets = [e for e in ft.calls("set_known_values") if e.recv == G]
+    if not resets:
+        raise AnalysisError("sample_exploitabilities_of_action_sequences: no game.set_known_values(...) call found")
+    NEC = ("the search reports the gap of (starting knowledge + set): starting from anything else - the minimal information, a filtered or re-computed list - "
+           "forgets coalitions the caller's game already knows, enumerates sets that contain them and reports gaps of another knowledge state")
+    for e in resets:
+        ok = len(e.args) == 2 and e.args[1] == want and e.args[0][0] == "call" and e.args[0][1][0] == "attr" and e.args[0][1][2] == "get_values" and e.args[0][2] == (want,) \
+            and e.args[0][1][1][0] == "call" and e.args[0][1][1][1] == GEN
+        col.check(ok, ref.where(e.node), ref.short, "set_known_values(sampled_full_game.get_values(K), K) with K = list(get_known_coalitions(game))", construct="sample-start-knowledge",
+                  necessity=NEC)
+    # K is captured before the first reset (afterwards the game's knowledge is K anyway, but a capture inside the loop would also pick up leftovers)
+    first_reset = min(e.seq for e in resets)
+    caps = [e for e in ft.calls() if is_global(e.func, P + "coalitions.get_known_coalitions")]
+    col.check(bool(caps) and all(e.seq < first_reset and not any(f[0] in ("for", "while") for f in e.ctx) for e in caps), ref.where(caps[0].node if caps else None), ref.short,
+              "the starting knowledge is read once, before the first reset and outside the sampling loop", construct="sample-capture-order", necessity=NEC)
